@@ -992,7 +992,7 @@ impl Prop for C07 {
         "C07"
     }
     fn rule(&self) -> String {
-        "(symbolic level + wire level: every value on the direct route and one representative per notation x feature on the other routes (thorough: all) is compiled into the wirecheck workspace, the generated constant / Holder default is encoded by rasn's DER codec and the bytes are compared with the X.690 encoding of the source value computed by a 100-line reference encoder) per value notation, complete inside: integers = the 53-point boundary set ∪ {±2^127 ends} (typed INTEGER, a fitting constrained INTEGER, a named-number type); TRUE/FALSE; NULL; cstrings = all strings of length <=2 over {a, space, \"\" (escaped quote), é, €} restricted to each of the 11 string types' alphabets plus a 40-character string; bstrings = all of length 0..8 (BIT STRING) and all byte-multiples and a third of the partial-octet ones, zero-padded per X.680 23.5 / 23.6 (OCTET STRING); hstrings = all of 0..2 digits, every digit at every position of a 4-digit string, the 64 walking-one patterns; named-bit lists = all 32 subsets of {b0,b1,b3,b7,b15}; named numbers, enumerals; UTCTime / GeneralizedTime values in every form of the notation (with / without seconds, fractions with . and , , Z / offset / local, leap day) judged by an independent reading of both the ASN.1 and the RFC 3339 notation as instants and by the DER canonical form on the wire; OIDs of 2..4 arcs with every arc form (number, every X.660 well-known name under its root, name(number), leading value reference); CHOICE / SEQUENCE / SEQUENCE OF values to depth 2 (hand-picked, incl. one-member SEQUENCE values that read like OBJECT IDENTIFIER values) and systematically: every type tree of depth <= 2 over {INTEGER, BOOLEAN, NULL} with constructors SEQUENCE of 1..2 members (each required or OPTIONAL), CHOICE of 2 alternatives, SEQUENCE OF (depth 2 over the leaves and 8 depth-1 representatives; 1.3 k trees, thorough 2.4 k), nested types once as type assignments of their own and once inline, × every value with one component varied at a time (each alternative, OPTIONAL present / absent, lists of length 0..2), judged by a reference DER encoder that is generic in the type tree; values the compiler declines with a warning are counted as skipped by warning class; each × route {value assignment, through two type references, via a value reference, DEFAULT, DEFAULT via value reference, between lexical neighbours, DEFAULT of a component of the element type of a SEQUENCE OF; trees written inline also as DEFAULT of a component of that inline type}. Oracle: a symbolic evaluator of the expression forms the templates emit reduces the initialiser (const, LazyLock static, default fn body) to an abstract value compared with the model's (bit strings from named bits modulo trailing zeros). Non-trivial: compiled cleanly and the initialiser was evaluated.".into()
+        "(symbolic level + wire level: every value on the direct route and one representative per notation x feature on the other routes (thorough: all) is compiled into the wirecheck workspace, the generated constant / Holder default is encoded by rasn's DER codec and the bytes are compared with the X.690 encoding of the source value computed by a 100-line reference encoder) per value notation, complete inside: integers = the 53-point boundary set ∪ {±2^127 ends} (typed INTEGER, a fitting constrained INTEGER, a named-number type); TRUE/FALSE; NULL; cstrings = all strings of length <=2 over {a, space, \"\" (escaped quote), é, €} restricted to each of the 11 string types' alphabets plus a 40-character string, strings that are lexically time values and strings that span lines; bstrings = all of length 0..8 (BIT STRING) and all byte-multiples and a third of the partial-octet ones, zero-padded per X.680 23.5 / 23.6 (OCTET STRING); hstrings = all of 0..2 digits, every digit at every position of a 4-digit string, the 64 walking-one patterns; named-bit lists = all 32 subsets of {b0,b1,b3,b7,b15}; named numbers, enumerals; UTCTime / GeneralizedTime values in every form of the notation (with / without seconds, fractions with . and , , Z / offset / local, leap day) judged by an independent reading of both the ASN.1 and the RFC 3339 notation as instants and by the DER canonical form on the wire; OIDs of 2..4 arcs with every arc form (number, every X.660 well-known name under its root, name(number), leading value reference); CHOICE / SEQUENCE / SEQUENCE OF values to depth 2 (hand-picked, incl. one-member SEQUENCE values that read like OBJECT IDENTIFIER values) and systematically: every type tree of depth <= 2 over {INTEGER, BOOLEAN, NULL} with constructors SEQUENCE of 1..2 members (each required or OPTIONAL), CHOICE of 2 alternatives, SEQUENCE OF (depth 2 over the leaves and 8 depth-1 representatives; 1.3 k trees, thorough 2.4 k), nested types once as type assignments of their own and once inline, × every value with one component varied at a time (each alternative, OPTIONAL present / absent, lists of length 0..2), judged by a reference DER encoder that is generic in the type tree; values the compiler declines with a warning are counted as skipped by warning class; each × route {value assignment, through two type references, via a value reference, DEFAULT, DEFAULT via value reference, between lexical neighbours, DEFAULT of a component of the element type of a SEQUENCE OF; trees written inline also as DEFAULT of a component of that inline type}. Oracle: a symbolic evaluator of the expression forms the templates emit reduces the initialiser (const, LazyLock static, default fn body) to an abstract value compared with the model's (bit strings from named bits modulo trailing zeros). Non-trivial: compiled cleanly and the initialiser was evaluated.".into()
     }
     fn selftest(&self) -> Result<u64, String> {
         let f: syn::File = syn::parse_str("pub mod m { pub const A: u8 = 5; pub static O1: LazyLock<ObjectIdentifier> = LazyLock::new(|| Oid::const_new(&[1u32, 2u32]).to_owned()); pub static O3: LazyLock<ObjectIdentifier> = LazyLock::new(|| Oid::new(&[&***O1, &[7u32]].concat()).unwrap().to_owned()); pub static B: LazyLock<BitString> = LazyLock::new(|| [true, false].into_iter().collect()); pub static X: LazyLock<OctetString> = LazyLock::new(|| <OctetString as From<&'static [u8]>>::from(&[175, 9])); pub const C3: C = C::c(C2::z(())); pub static I: LazyLock<T2> = LazyLock::new(|| T2(T1(Integer::from(-2i128)))); }").map_err(|e| e.to_string())?;
@@ -1119,6 +1119,15 @@ pub fn cases(tier: Tier) -> Vec<Case> {
                 let want: String = s.iter().map(|a| if *a == "\"\"" { "\"" } else { a }).collect();
                 let feat = format!("len={}{}{}", s.len().min(3), if s.contains(&"\"\"") { "+quote" } else { "" }, if s.iter().any(|a| !a.is_ascii()) { "+multibyte" } else { "" });
                 add(&format!("cstring:{ty}"), ty, "", format!("\"{src}\""), Val::Str(want), feat);
+            }
+        }
+        // character strings that span lines: the end of line and the spacing next to it are not part of the string (X.680 12.14.1)
+        for (ty, _) in &types {
+            if *ty == "NumericString" {
+                continue;
+            }
+            for (src, want) in [("abc   \n       def", "abcdef"), ("a\nb", "ab"), ("a \r\n\tb", "ab"), ("a b\n\n  c d", "a bc d")] {
+                add(&format!("cstring:{ty}"), ty, "", format!("\"{src}\""), Val::Str(want.to_string()), "multi-line".into());
             }
         }
         // OCTET STRING types of fixed size (FixedOctetString in the bindings), directly and through a reference
